@@ -3,7 +3,7 @@ library functions with a one-line contract.  Every entry is part of the trusted 
 import re
 import z3
 
-from .exec import (Agg, EnumV, RefV, SeqV, Opaque, FnV, ClosureV, UNIT, Outcome, Panic, BYTES, enum_name_of_type, strip_generics)
+from .exec import (IterV, Agg, EnumV, RefV, SeqV, Opaque, FnV, ClosureV, UNIT, Outcome, Panic, BYTES, enum_name_of_type, strip_generics)
 from .parse import Unsupported
 
 B8 = z3.BitVecSort(8)
@@ -296,6 +296,251 @@ def s_partial_ord(ex, st, callee, args, argv, f):
     return ok1(st, a > b if signed else z3.UGT(a, b))
 
 
+def _int_ty(name):
+    signed = name.startswith("i")
+    w = 64 if name.endswith("size") else int(name[1:])
+    return signed, w
+
+
+def s_int_from(ex, st, callee, args, argv, f):
+    """<T as From<S>>::from / <S as Into<T>>::into on primitive integers (lossless widening), <char as From<u8>>"""
+    m = re.match(r"^<(char|[iu](?:8|16|32|64|128|size)) as (?:std::convert::)?(From|Into)<([iu](?:8|16|32|64|128|size)|char)>>::(?:from|into)$", callee)
+    a, kind, b = m.group(1), m.group(2), m.group(3)
+    dst, src = (a, b) if kind == "From" else (b, a)
+    v = ex.deref_val(st, argv[0]) if isinstance(argv[0], RefV) else argv[0]
+    if not z3.is_bv(v):
+        raise Unsupported("integer From on %r" % (v,))
+    dw = 32 if dst == "char" else _int_ty(dst)[1]
+    ssigned = False if src == "char" else _int_ty(src)[0]
+    if dw < v.size():
+        raise Unsupported("narrowing From: %s" % callee)
+    if dw == v.size():
+        return ok1(st, v)
+    return ok1(st, z3.SignExt(dw - v.size(), v) if ssigned else z3.ZeroExt(dw - v.size(), v))
+
+
+def s_int_try_from(ex, st, callee, args, argv, f):
+    """<T as TryFrom<S>>::try_from / <S as TryInto<T>>::try_into on primitive integers"""
+    m = re.match(r"^<([iu](?:8|16|32|64|size)) as (?:std::convert::)?(TryFrom|TryInto)<([iu](?:8|16|32|64|size))>>::(?:try_from|try_into)$", callee)
+    a, kind, b = m.group(1), m.group(2), m.group(3)
+    dst, src = (a, b) if kind == "TryFrom" else (b, a)
+    v = argv[0]
+    if not z3.is_bv(v):
+        raise Unsupported("integer TryFrom on %r" % (v,))
+    (ds, dw), (ss, sw) = _int_ty(dst), _int_ty(src)
+    if sw != v.size():
+        raise Unsupported("TryFrom width mismatch: %s" % callee)
+    # value interpreted in the wider of the two, mathematically
+    W = max(dw, sw) + 1
+    wide = z3.SignExt(W - sw, v) if ss else z3.ZeroExt(W - sw, v)
+    lo = -(1 << (dw - 1)) if ds else 0
+    hi = (1 << (dw - 1)) - 1 if ds else (1 << dw) - 1
+    fits = z3.And(wide >= z3.BitVecVal(lo, W), wide <= z3.BitVecVal(hi, W))
+    out = z3.Extract(dw - 1, 0, wide) if dw <= W else None
+    d = z3.simplify(z3.If(fits, z3.BitVecVal(0, 64), z3.BitVecVal(1, 64)))
+    return ok1(st, EnumV("Result", d, {0: [out], 1: [Opaque("TryFromIntError")]}))
+
+
+def _split_disc(ex, st, v, n=2):
+    """fork on the discriminant of an enum value: [(state, k)]"""
+    if isinstance(v.disc, int):
+        return [(st, v.disc)]
+    outs = []
+    for k in range(n):
+        c = v.disc == k
+        if ex.feasible(st, c):
+            s2 = st.clone()
+            s2.pc.append(c)
+            outs.append((s2, k))
+    return outs
+
+
+def _closure_results(ex, st, clo, cargs, wrap):
+    outs = []
+    for o in ex.call_closure(st, clo, cargs):
+        if o.panic is not None:
+            outs.append(o)
+        else:
+            outs.append(Outcome(o.st, ret=wrap(o.ret)))
+    return outs
+
+
+def s_option_map(ex, st, callee, args, argv, f):
+    v, clo = argv[0], argv[1]
+    if not (isinstance(v, EnumV) and v.ety == "Option"):
+        raise Unsupported("Option::map on %r" % (v,))
+    outs = []
+    for s2, k in _split_disc(ex, st, v):
+        if k == 0:
+            outs.append(Outcome(s2, ret=EnumV("Option", 0, {})))
+        else:
+            outs += _closure_results(ex, s2, clo, [v.payloads[1][0]], lambda r: EnumV("Option", 1, {1: [r]}))
+    return outs
+
+
+def s_option_and_then(ex, st, callee, args, argv, f):
+    v, clo = argv[0], argv[1]
+    if not (isinstance(v, EnumV) and v.ety == "Option"):
+        raise Unsupported("Option::and_then on %r" % (v,))
+    outs = []
+    for s2, k in _split_disc(ex, st, v):
+        if k == 0:
+            outs.append(Outcome(s2, ret=EnumV("Option", 0, {})))
+        else:
+            outs += _closure_results(ex, s2, clo, [v.payloads[1][0]], lambda r: r)
+    return outs
+
+
+def s_option_filter(ex, st, callee, args, argv, f):
+    v, clo = argv[0], argv[1]
+    if not (isinstance(v, EnumV) and v.ety == "Option"):
+        raise Unsupported("Option::filter on %r" % (v,))
+    outs = []
+    for s2, k in _split_disc(ex, st, v):
+        if k == 0:
+            outs.append(Outcome(s2, ret=EnumV("Option", 0, {})))
+            continue
+        x = v.payloads[1][0]
+        # &T argument: a reference to a scalar is represented by the value itself
+        for o in ex.call_closure(s2, clo, [x]):
+            if o.panic is not None:
+                outs.append(o)
+                continue
+            keep = o.ret
+            if z3.is_bv(keep):
+                keep = keep != 0
+            d = z3.simplify(z3.If(keep, z3.BitVecVal(1, 64), z3.BitVecVal(0, 64)))
+            outs.append(Outcome(o.st, ret=EnumV("Option", d, {1: [x]})))
+    return outs
+
+
+def s_option_ok_or(ex, st, callee, args, argv, f):
+    v, e = argv[0], argv[1]
+    if not (isinstance(v, EnumV) and v.ety == "Option"):
+        raise Unsupported("Option::ok_or on %r" % (v,))
+    d = v.disc
+    nd = (1 - d) if isinstance(d, int) else z3.simplify(1 - d)
+    return ok1(st, EnumV("Result", nd, {0: list(v.payloads.get(1, [UNIT])), 1: [e]}))
+
+
+def s_option_ok_or_else(ex, st, callee, args, argv, f):
+    v, clo = argv[0], argv[1]
+    if not (isinstance(v, EnumV) and v.ety == "Option"):
+        raise Unsupported("Option::ok_or_else on %r" % (v,))
+    outs = []
+    for s2, k in _split_disc(ex, st, v):
+        if k == 1:
+            outs.append(Outcome(s2, ret=EnumV("Result", 0, {0: [v.payloads[1][0]]})))
+        else:
+            outs += _closure_results(ex, s2, clo, [], lambda r: EnumV("Result", 1, {1: [r]}))
+    return outs
+
+
+def s_option_unwrap_or(ex, st, callee, args, argv, f):
+    v, dflt = argv[0], argv[1]
+    if not (isinstance(v, EnumV) and v.ety == "Option"):
+        raise Unsupported("Option::unwrap_or on %r" % (v,))
+    if isinstance(v.disc, int):
+        return ok1(st, v.payloads[1][0] if v.disc == 1 else dflt)
+    x = v.payloads.get(1, [None])[0]
+    if z3.is_expr(x) and z3.is_expr(dflt):
+        return ok1(st, z3.If(v.disc == 1, x, dflt))
+    outs = []
+    for s2, k in _split_disc(ex, st, v):
+        outs.append(Outcome(s2, ret=x if k == 1 else dflt))
+    return outs
+
+
+def s_result_map(ex, st, callee, args, argv, f):
+    v, clo = argv[0], argv[1]
+    if not (isinstance(v, EnumV) and v.ety == "Result"):
+        raise Unsupported("Result::map on %r" % (v,))
+    outs = []
+    for s2, k in _split_disc(ex, st, v):
+        if k == 1:
+            outs.append(Outcome(s2, ret=EnumV("Result", 1, {1: list(v.payloads.get(1, [UNIT]))})))
+        else:
+            outs += _closure_results(ex, s2, clo, [v.payloads[0][0]], lambda r: EnumV("Result", 0, {0: [r]}))
+    return outs
+
+
+def s_result_ok(ex, st, callee, args, argv, f):
+    v = argv[0]
+    if not (isinstance(v, EnumV) and v.ety == "Result"):
+        raise Unsupported("Result::ok on %r" % (v,))
+    d = v.disc
+    nd = (1 - d) if isinstance(d, int) else z3.simplify(1 - d)
+    return ok1(st, EnumV("Option", nd, {1: list(v.payloads.get(0, [UNIT]))}))
+
+
+def s_result_is(which):
+    def fn(ex, st, callee, args, argv, f):
+        v = ex.deref_val(st, argv[0])
+        return ok1(st, disc_expr(v) == which)
+    return fn
+
+
+def s_bool_then(ex, st, callee, args, argv, f):
+    c, clo = argv[0], argv[1]
+    if z3.is_bv(c):
+        c = c != 0
+    outs = []
+    for cond, k in ((c, 1), (z3.Not(c), 0)):
+        if not ex.feasible(st, cond):
+            continue
+        s2 = st.clone()
+        s2.pc.append(cond)
+        if k == 0:
+            outs.append(Outcome(s2, ret=EnumV("Option", 0, {})))
+        else:
+            outs += _closure_results(ex, s2, clo, [], lambda r: EnumV("Option", 1, {1: [r]}))
+    return outs
+
+
+def s_bool_then_some(ex, st, callee, args, argv, f):
+    c, x = argv[0], argv[1]
+    if z3.is_bv(c):
+        c = c != 0
+    d = z3.simplify(z3.If(c, z3.BitVecVal(1, 64), z3.BitVecVal(0, 64)))
+    return ok1(st, EnumV("Option", d, {1: [x]}))
+
+
+def s_checked_mul(ex, st, callee, args, argv, f):
+    a, b = argv[0], argv[1]
+    w = a.size()
+    wide = z3.ZeroExt(w, a) * z3.ZeroExt(w, b)
+    ovf = z3.Extract(2 * w - 1, w, wide) != 0
+    d = z3.simplify(z3.If(ovf, z3.BitVecVal(0, 64), z3.BitVecVal(1, 64)))
+    return ok1(st, EnumV("Option", d, {1: [z3.Extract(w - 1, 0, wide)]}))
+
+
+def s_slice_into_iter(ex, st, callee, args, argv, f):
+    v = argv[0]
+    if isinstance(v, Opaque) and v.tag == "iter":
+        return ok1(st, v)          # <Iter as IntoIterator>::into_iter
+    sl = ex.deref_val(st, v)
+    if isinstance(sl, SeqV) or hasattr(sl, "line"):
+        return ok1(st, IterV(sl))
+    raise Unsupported("into_iter on %r" % (sl,))
+
+
+def s_slice_iter_next(ex, st, callee, args, argv, f):
+    """Iter<u8>::next outside an accelerated loop: position-indexed slices only (layer T); no fork here, the Option's
+    discriminant is symbolic and the caller's switchInt forks"""
+    r = argv[0]
+    it = ex.deref_val(st, r)
+    if isinstance(it, Opaque) and it.tag == "iter-exhausted":
+        return ok1(st, EnumV("Option", 0, {}))
+    sl = ex.deref_val(st, it.e) if isinstance(it, Opaque) and it.tag == "iter" else None
+    if sl is None or not hasattr(sl, "line") or not isinstance(r, RefV):
+        raise Unsupported("Iter::next on %r (a loop over this value is not a straight-line fold)" % (it,))
+    nonempty = z3.ULT(sl.s, sl.e)
+    item = sl.line.at(sl.s)
+    ex.write_ref(st, r, [], IterV(type(sl)(sl.line, z3.simplify(z3.If(nonempty, sl.s + 1, sl.s)), sl.e)))
+    d = z3.simplify(z3.If(nonempty, z3.BitVecVal(1, 64), z3.BitVecVal(0, 64)))
+    return ok1(st, EnumV("Option", d, {1: [item]}))
+
+
 def s_identity(ex, st, callee, args, argv, f):
     return ok1(st, argv[0])
 
@@ -333,6 +578,24 @@ COMMON = [
     (r"^core::num::<impl u(?:8|16|32|64|size)>::abs_diff$", int_method("abs_diff")),
     (r"^<&*[iu](?:8|16|32|64|size) as PartialOrd>::(?:le|lt|ge|gt)$", s_partial_ord),
     (r"^<u8 as Clone>::clone$|^<Option<u8> as Clone>::clone$", lambda ex, st, c, a, v, f: ok1(st, ex.deref_val(st, v[0]))),
+    (r"^<(?:char|[iu](?:8|16|32|64|128|size)) as (?:std::convert::)?(?:From|Into)<(?:[iu](?:8|16|32|64|128|size)|char)>>::(?:from|into)$", s_int_from),
+    (r"^<[iu](?:8|16|32|64|size) as (?:std::convert::)?(?:TryFrom|TryInto)<[iu](?:8|16|32|64|size)>>::(?:try_from|try_into)$", s_int_try_from),
+    (r"^Option::<.*>::map::<", s_option_map),
+    (r"^Option::<.*>::and_then::<", s_option_and_then),
+    (r"^Option::<.*>::filter::<", s_option_filter),
+    (r"^Option::<.*>::ok_or::<", s_option_ok_or),
+    (r"^Option::<.*>::ok_or_else::<", s_option_ok_or_else),
+    (r"^Option::<.*>::unwrap_or$", s_option_unwrap_or),
+    (r"^(?:std::result::)?Result::<.*>::map::<", s_result_map),
+    (r"^(?:std::result::)?Result::<.*>::ok$", s_result_ok),
+    (r"^(?:std::result::)?Result::<.*>::is_ok$", s_result_is(0)),
+    (r"^(?:std::result::)?Result::<.*>::is_err$", s_result_is(1)),
+    (r"^(?:core::)?bool::<impl bool>::then::<|^core::bool::<impl bool>::then::<", s_bool_then),
+    (r"^(?:core::)?bool::<impl bool>::then_some::<|^core::bool::<impl bool>::then_some::<", s_bool_then_some),
+    (r"^core::num::<impl u(?:8|16|32|64|size)>::checked_mul$", s_checked_mul),
+    (r"^<&\[u8\] as IntoIterator>::into_iter$|^<(?:std::|core::)?slice::Iter<'_, u8> as IntoIterator>::into_iter$|^<&(?:std::vec::)?Vec<u8(?:, \d+)?> as IntoIterator>::into_iter$", s_slice_into_iter),
+    (r"^<(?:std::|core::)?slice::Iter<'_, u8> as Iterator>::next$|^<(?:std::|core::)?str::Bytes<'_> as Iterator>::next$", s_slice_iter_next),
+    (r"^<(?:std::|core::)?str::Bytes<'_> as IntoIterator>::into_iter$", s_slice_into_iter),
 ]
 
 
